@@ -19,6 +19,9 @@
      * channel states are set by the environment ([LChan]); the state the hook saw is in [LNodeDown]
      * completion of the asynchronous open chain that discards a pending endpoint             -> [LOpenDone]
      * `ar.exception` seen by _Jitter after waiting                                            -> [exn]
+     * collaborators may complete synchronously: a channel whose Close() fails its in-flight requests inline makes
+       the heap call _OnPut (and the caller may dispatch again) in the middle of _RemoveSink / _ContractAperture;
+       therefore a departure is two labels ([LLeave], [LReplace]) and _Jitter's final discard is a separate [LOpenDone]
    Outcomes: [Ok s] | [Inadm] (the label could not have been produced by the code in this state; the
    correspondence check fails on it) | [Crash] (a Python exception escapes: KeyError in `self._servers[new_endpoint]`). *)
 From Coq Require Import ZArith QArith List Bool Lia.
@@ -39,11 +42,13 @@ Record state := {
   idle    : list Z;         (* self._idle_endpoints *)
   pending : list Z;         (* self._pending_endpoints *)
   total   : Z;              (* self._total *)
-  ema     : option Q        (* self._ema.value; None while self._ema._time == -1 *)
+  ema     : option Q;       (* self._ema.value; None while self._ema._time == -1 *)
+  leaving : option Z        (* control point: Some ep while ApertureBalancerSink._RemoveSink(ep) is between
+                               `removed = super()._RemoveSink(ep)` (which returned True) and `self._TryExpandAperture()` *)
 }.
 
 Definition init : state :=
-  {| members := []; active := []; idle := []; pending := []; total := 0; ema := None |}.
+  {| members := []; active := []; idle := []; pending := []; total := 0; ema := None; leaving := None |}.
 
 Definition memz (e : Z) (l : list Z) : bool := existsb (Z.eqb e) l.
 Definition sadd (e : Z) (l : list Z) : list Z := if memz e l then l else l ++ [e].       (* set.add *)
@@ -52,6 +57,7 @@ Definition eps_of (a : list member) : list Z := map m_ep a.
 Definition size (s : state) : Z := Z.of_nat (length (active s)).                          (* self._size *)
 Definition healthy (s : state) : Z := Z.of_nat (length (filter is_open (active s))).      (* num_healthy *)
 Definition is_nil {A} (l : list A) : bool := match l with [] => true | _ => false end.
+Definition is_none {A} (o : option A) : bool := match o with None => true | _ => false end.
 
 Fixpoint remove_first (e : Z) (a : list member) : list member :=
   match a with
@@ -63,10 +69,11 @@ Definition fresh (e : Z) : member := {| m_ep := e; m_st := 1 |}.
 
 Inductive result := Ok (s : state) | Inadm | Crash.
 
-Definition set_active (s : state) a := {| members := members s; active := a; idle := idle s; pending := pending s; total := total s; ema := ema s |}.
-Definition set_idle (s : state) i := {| members := members s; active := active s; idle := i; pending := pending s; total := total s; ema := ema s |}.
-Definition set_pending (s : state) p := {| members := members s; active := active s; idle := idle s; pending := p; total := total s; ema := ema s |}.
-Definition set_members (s : state) m := {| members := m; active := active s; idle := idle s; pending := pending s; total := total s; ema := ema s |}.
+Definition set_active (s : state) a := {| members := members s; active := a; idle := idle s; pending := pending s; total := total s; ema := ema s; leaving := leaving s |}.
+Definition set_idle (s : state) i := {| members := members s; active := active s; idle := i; pending := pending s; total := total s; ema := ema s; leaving := leaving s |}.
+Definition set_pending (s : state) p := {| members := members s; active := active s; idle := idle s; pending := p; total := total s; ema := ema s; leaving := leaving s |}.
+Definition set_leaving (s : state) l := {| members := members s; active := active s; idle := idle s; pending := pending s; total := total s; ema := ema s; leaving := l |}.
+Definition set_members (s : state) m := {| members := m; active := active s; idle := idle s; pending := pending s; total := total s; ema := ema s; leaving := leaving s |}.
 
 (* _TryExpandAperture (leave_pending only decides who discards the pending mark later: a callback -> LOpenDone,
    or _Jitter's finally -> LJitterDone) *)
@@ -82,7 +89,7 @@ Definition try_expand (s : state) (ch : option Z) : result :=
                  active := active s ++ [fresh e];           (* heap._AddSink *)
                  idle := sdiscard e (idle s);
                  pending := sadd e (pending s);
-                 total := total s; ema := ema s |}
+                 total := total s; ema := ema s; leaving := leaving s |}
   end.
 
 Definition cands (s : state) : list member := filter (fun m => negb (memz (m_ep m) (pending s))) (active s).
@@ -107,7 +114,7 @@ Definition contract (c : config) (s : state) (force : bool) (victim : option Z) 
         then Ok {| members := members s;
                    active := remove_first v (active s);     (* heap._RemoveSink *)
                    idle := sadd v (idle s);
-                   pending := pending s; total := total s; ema := ema s |}
+                   pending := pending s; total := total s; ema := ema s; leaving := leaving s |}
         else Inadm
     end
   else
@@ -115,13 +122,15 @@ Definition contract (c : config) (s : state) (force : bool) (victim : option Z) 
 
 Inductive label :=
 | LJoin (ep : Z)                                   (* __OnServerSetJoin / initial __AddServer *)
-| LLeave (ep : Z) (ch : option Z)                  (* __OnServerSetLeave *)
+| LLeave (ep : Z)                                  (* __OnServerSetLeave up to and including `removed = super()._RemoveSink(ep)` (+ the rest when removed is False) *)
+| LReplace (ep : Z) (ch : option Z)                (* rest of _RemoveSink(ep) when removed: _TryExpandAperture(); idle.discard(ep) *)
 | LChan (ep st : Z)                                (* environment: the channel of active member ep is now in state st *)
 | LNodeDown (ep st : Z) (ch : option Z)            (* hook _OnNodeDown(node); st = node.channel.state as read by the hook *)
 | LAdjust (amount sample : Z) (w avg : Q) (ch victim : option Z)   (* hooks _OnGet (+1) / _OnPut (-1) *)
 | LOpenDone (ep : Z)                               (* lambda ar: self._pending_endpoints.discard(ep) *)
 | LJitterStart (ch : option Z)                     (* _Jitter up to ar.wait() *)
-| LJitterDone (ep : Z) (exn : bool) (victim : option Z).   (* _Jitter after ar.wait() *)
+| LJitterDone (exn : bool) (victim : option Z).    (* _Jitter after ar.wait(): `if not ar.exception: self._ContractAperture(True)`;
+                                                      its `finally: pending.discard(endpoint)` is an LOpenDone label *)
 
 Definition load_ge_max (c : config) (s : state) (avg : Q) : bool :=
   if size s =? 0 then Qle_bool (max_load c) (max_load c)      (* aperture_load = self._max_load *)
@@ -145,21 +154,33 @@ Definition ema_ok (s : state) (sample : Z) (w avg : Q) : bool :=
 Definition step (c : config) (s : state) (l : label) : result :=
   match l with
   | LJoin ep =>
-      if memz ep (members s) then Ok s
+      if negb (is_none (leaving s)) then Inadm                      (* server-set notifications are delivered serially *)
+      else if memz ep (members s) then Ok s
       else
         let s1 := set_members s (members s ++ [ep]) in
         if healthy s <? min_size c
         then Ok (set_active s1 (active s ++ [fresh ep]))
         else Ok (set_idle s1 (sadd ep (idle s)))
-  | LLeave ep ch =>
-      let s1 := set_members s (sdiscard ep (members s)) in          (* self._servers.pop(ep, None) *)
-      let r :=
+  | LLeave ep =>
+      match leaving s with
+      | Some _ => Inadm                                             (* server-set notifications are delivered serially *)
+      | None =>
+        let s1 := set_members s (sdiscard ep (members s)) in        (* self._servers.pop(ep, None) *)
         if memz ep (eps_of (active s))                              (* removed = heap._RemoveSink(ep) *)
-        then try_expand (set_active s1 (remove_first ep (active s))) ch
-        else match ch with None => Ok s1 | Some _ => Inadm end in
-      match r with
-      | Ok s2 => Ok (set_idle s2 (sdiscard ep (idle s2)))
-      | x => x
+        then Ok (set_leaving (set_active s1 (remove_first ep (active s))) (Some ep))
+        else Ok (set_idle s1 (sdiscard ep (idle s1)))
+      end
+  | LReplace ep ch =>
+      (* between LLeave and LReplace the removed node's channel is closed; a channel that fails its in-flight requests
+         inline makes the heap call _OnPut (and the caller may dispatch again) right here, hence the separate label *)
+      match leaving s with
+      | Some e =>
+          if negb (e =? ep) then Inadm
+          else match try_expand (set_leaving s None) ch with
+               | Ok s2 => Ok (set_idle s2 (sdiscard ep (idle s2)))
+               | x => x
+               end
+      | None => Inadm
       end
   | LChan ep st =>
       Ok (set_active s (map (fun m => if m_ep m =? ep then {| m_ep := ep; m_st := st |} else m) (active s)))
@@ -173,7 +194,7 @@ Definition step (c : config) (s : state) (l : label) : result :=
       else if negb (ema_ok s sample w avg) then Inadm
       else
         let s1 := {| members := members s; active := active s; idle := idle s; pending := pending s;
-                     total := t; ema := Some avg |} in
+                     total := t; ema := Some avg; leaving := leaving s |} in
         if up_cond c s avg then
           match victim with None => try_expand s1 ch | Some _ => Inadm end
         else if down_cond c s avg then
@@ -182,13 +203,9 @@ Definition step (c : config) (s : state) (l : label) : result :=
           match ch, victim with None, None => Ok s1 | _, _ => Inadm end
   | LOpenDone ep => Ok (set_pending s (sdiscard ep (pending s)))
   | LJitterStart ch => try_expand s ch
-  | LJitterDone ep exn victim =>
-      let r := if exn then match victim with None => Ok s | Some _ => Inadm end
-               else contract c s true victim in
-      match r with
-      | Ok s2 => Ok (set_pending s2 (sdiscard ep (pending s2)))
-      | x => x
-      end
+  | LJitterDone exn victim =>
+      if exn then match victim with None => Ok s | Some _ => Inadm end
+      else contract c s true victim
   end.
 
 Fixpoint run (c : config) (s : state) (ls : list label) : result :=
